@@ -1,0 +1,7 @@
+//go:build !verif
+// +build !verif
+
+package tmutex
+
+// verifPoint is an empty function unless the "verif" build tag is set.
+func verifPoint(id int, m *Mutex) {}
